@@ -192,7 +192,9 @@ class PathEnumerator:
                 raise Unsupported("yield expression in assignment")
             v = ev.expr(st.value, f)
             targets = st.targets if isinstance(st, ast.Assign) else [st.target]
-            if v[0] == "ite" and self.split_ite and len(targets) == 1 and isinstance(targets[0], (ast.Name, ast.Tuple, ast.List)) and isinstance(st.value, ast.IfExp):
+            if v[0] == "ite" and self.split_ite and len(targets) == 1 and isinstance(targets[0], (ast.Name, ast.Tuple, ast.List)) \
+                    and (isinstance(st.value, ast.IfExp) or (isinstance(st.value, ast.Call) and v[2][0] != "ite" and v[3][0] != "ite")):
+                # (also a two-way choice made inside a pure helper that was read as a value)
                 # ``x = a if c else b``  is  ``if c: x = a`` / ``else: x = b``
                 outs = []
                 for c, val in ((v[1], v[2]), (t_not(v[1]), v[3])):
